@@ -1,7 +1,7 @@
 #!/bin/bash
 # usage: lib/runall.sh <tier> <seed> [ids...]  -- runs checks sequentially, prints one line per check
 tier=$1; seed=$2; shift 2
-ids=${@:-C01 C02 C03 C04 C05 C06 C07 C08 C09 C10 C11 C12 C13 C15 C16 C17 C18 C19 C20}
+ids=${@:-C01 C02 C03 C04 C05 C06 C07 C08 C09 C10 C11 C12 C13 C14 C15 C16 C17 C18 C19 C20}
 cd /verif
 for id in $ids; do
   s=$(date +%s)
